@@ -729,6 +729,33 @@ def spec_memo():
     return {"expr": P_(s_post("expr")), "sin": C_(s_cut("sin"))}
 
 
+class C19MemoState(MultiFunction):
+    """Memoized cut-off handlers whose results depend on per-instance state."""
+
+    def __init__(self, salt):
+        MultiFunction.__init__(self)
+        self.salt = salt
+
+    def expr(self, o, *ops):
+        return f"expr:{type(o).__name__}[" + ",".join(map(str, ops)) + "]"
+
+    @memoized_handler
+    def sin(self, o):
+        return f"sin@{self.salt}<{sstr(o)}>"
+
+    @memoized_handler
+    def terminal(self, o):
+        return f"terminal@{self.salt}<{sstr(o)}>"
+
+
+def memo_state_ref(o, salt):
+    if isinstance(o, Sin):
+        return f"sin@{salt}<{sstr(o)}>"
+    if o._ufl_is_terminal_:
+        return f"terminal@{salt}<{sstr(o)}>"
+    return f"expr:{type(o).__name__}[" + ",".join(memo_state_ref(c, salt) for c in o.ufl_operands) + "]"
+
+
 MF_BASE = {"ufl_type": P_(_undef)}
 TR_BASE = {"ufl_type": C_(_undef), "terminal": C_(lambda self, o: o)}
 
@@ -932,6 +959,18 @@ def part_b_single(cx, mk, fully_shared):
                 cx.bad("B:memoized_handler:result", f"got {show(got[1])} want {show(wantm[1])}")
             elif any(n != 1 for s, n in f.calls.items() if type(ref_distinct(e)[s]) is Sin):
                 cx.bad("B:memoized_handler:calls", "memoized handler body executed more than once for a node")
+        # ---- memoized handlers whose result depends on the state of the instance: two instances used one after the
+        #      other on the same DAG (both orders) must each give what plain recursion with their own state gives
+        if famkey == "str":
+            for salts in ((2, 3), (3, 2)):
+                for salt in salts:
+                    inst = C19MemoState(salt)
+                    gotm = run_it(lambda: map_expr_dag(inst, e))
+                    wantm = ("ok", memo_state_ref(e, salt))
+                    cx.tr()
+                    cx.ok()
+                    if gotm != wantm:
+                        cx.bad("B:memoized_handler:instance-state", f"salts {salts}, instance {salt}: got {show(gotm[1])} want {show(wantm[1])}")
         # ---- Transformer.visit (tree semantics, base table has terminal=reuse)
         reft = RefAlgo(TR_BASE, spec)
         wantt = run_it(lambda: reft(e))
